@@ -373,11 +373,15 @@ class SliceSlicesIntegers(Slice):
         if isinstance(self.array, SliceSlicesIntegers):
             try:
                 fused = fuse_slice(self.array.index, self.index)
+                shape = self.array.array.shape
                 normalized = tuple(
-                    normalize_slice(idx, dim) if isinstance(idx, slice) else idx
-                    for idx, dim in zip(fused, self.array.array.shape)
+                    normalize_slice(idx, dim) if isinstance(idx, slice) else idx for idx, dim in zip(fused, shape)
                 )
-                return SliceSlicesIntegers(self.array.array, normalized, self.allow_getitem_optimization)
+                # Same refusal as ``slice_slices_and_integers``: an axis of unknown
+                # length can only be taken whole. Leave the two slices unfused
+                # rather than build a node the public API would have refused.
+                if not any(np.isnan(dim) and idx != slice(None, None, None) for dim, idx in zip(shape, normalized)):
+                    return SliceSlicesIntegers(self.array.array, normalized, self.allow_getitem_optimization)
             except NotImplementedError:
                 # Skip fusion for unsupported slicing patterns (e.g., negative step)
                 pass
